@@ -10,10 +10,13 @@ St == CASE st.part = "N" -> [cfg |-> st.cfg, warm |-> st.warm, tr |-> st.tr, k |
                                                       exts |-> [i \in 1..Len(st.cert.exts) |->
                                                                  [pub |-> st.cert.exts[i].pub, sby |-> st.cert.exts[i].sig.by,
                                                                   sover |-> st.cert.exts[i].sig.over]]]]
+       [] st.part = "H" -> [path |-> st.path, ownerA |-> st.ownerA, phase |-> st.phase, res |-> st.res,
+                            inbound |-> st.inbound, arrived |-> st.arrived]
        [] OTHER -> [outs |-> st.outs, warm |-> st.warm, warmed |-> st.warmed, done |-> st.done, res |-> st.res, visible |-> st.visible,
                     closed |-> st.closed, tried |-> st.tried]
 EmitEdge == PrintT(<<"VFEDGE", ToJson([s |-> St, op |-> op', t |-> St'])>>)
 MCInitN == InitN /\ PrintT(<<"VFINIT", ToJson(St)>>)
 MCInitT == InitT /\ PrintT(<<"VFINIT", ToJson(St)>>)
 MCInitS == InitS /\ PrintT(<<"VFINIT", ToJson(St)>>)
+MCInitH == InitH /\ PrintT(<<"VFINIT", ToJson(St)>>)
 =============================================================================
